@@ -50,11 +50,19 @@ def latest_restart_with(spec, it, rl):
     return best
 
 
-def compare(data, spec, req_vars, req_its, rl, restart):
+def compare(data, spec, req_vars, req_its, rl, restart, ckpt=False):
     """Returned dict vs ground truth.  -> list of problem strings."""
     probs = []
     avail = []
     for it in sorted(set(req_its)):
+        if ckpt:
+            cands = [r for r, rs in enumerate(spec['restarts'])
+                     if it in rs.get('checkpoints', [])
+                     and (restart == -1 or restart == r)]
+            r = cands[-1] if cands else None
+            if r is not None:
+                avail.append((it, r))
+            continue
         r = latest_restart_with(spec, it, rl) if restart == -1 else (
             restart if it in spec['restarts'][restart]['its'].get(rl, [])
             else None)
@@ -119,16 +127,23 @@ def dir_case(task):
                     data = reading.read_data(param, **kw)
             except Exception as ex:     # noqa: BLE001
                 out['raised'] += 1
-                nothing = not any(
-                    (latest_restart_with(spec, i, rl) is not None)
-                    if restart == -1 else
-                    (i in spec['restarts'][restart]['its'].get(rl, []))
-                    for i in ri)
+                if kw.get('usecheckpoints'):
+                    nothing = not any(
+                        i in rs.get('checkpoints', [])
+                        for i in ri for r_, rs in enumerate(spec['restarts'])
+                        if restart in (-1, r_))
+                else:
+                    nothing = not any(
+                        (latest_restart_with(spec, i, rl) is not None)
+                        if restart == -1 else
+                        (i in spec['restarts'][restart]['its'].get(rl, []))
+                        for i in ri)
                 if not exact_or_raise and not nothing:
                     out['bad'].append(('raised', type(ex).__name__,
                                        str(ex)[:160], [rv, ri, rl, restart]))
                 continue
-            for pb in compare(data, spec, rv, ri, rl, restart):
+            for pb in compare(data, spec, rv, ri, rl, restart,
+                              ckpt=bool(kw.get('usecheckpoints'))):
                 out['bad'].append(pb + ([rv, ri, rl, restart],))
             if kw['it'] != ri0 or kw['vars'] != rv0 or param != p0:
                 out['bad'].append(('argument-modified',
@@ -276,6 +291,28 @@ def build_tasks(tier):
                 reqs.append((rv, r0(4, 2), 0, r, ex))
         tasks.append((spec, reqs, 'sorted', False,
                       (f"F4:restarts={nres}:split={int(split)}",
+                       f"layout={int(grouped)}{int(proc)}")))
+    # F5: reading from checkpoints (every variable, time levels 0 and 1)
+    shapes5 = {0: (6, 5, 4), 1: (4, 6, 5)}
+    for (grouped, proc), cuts in itertools.product(
+            LAYOUTS, [(1, 1, 1), (2, 1, 2), (2, 2, 2)]):
+        bx5 = {0: etgen.tensor_boxes(shapes5[0], cuts),
+               1: etgen.tensor_boxes(shapes5[1], cuts)}
+        restarts = [
+            {'its': {0: r0(0, 2, 4), 1: r0(0, 1, 2, 3, 4)}, 'boxes': bx5,
+             'checkpoints': r0(0, 3, 4)},
+            {'its': {0: r0(4, 6, 8), 1: r0(4, 5, 6, 7, 8)}, 'boxes': bx5,
+             'checkpoints': r0(7, 8)}]
+        spec = base_spec('sim', grouped, proc, 2, shapes5, restarts,
+                         variables=VARS10, checkpoint_data=True)
+        ck = {'usecheckpoints': True}
+        reqs = []
+        for rv in (['alpha'], ['betaup3', 'gxy'], ['gammadown3']):
+            for ri in (r0(3), r0(4, 0), r0(8, 3, 7), r0(0, 3, 4, 7, 8)):
+                reqs.append((rv, ri, 0, -1, ck))
+            reqs.append((rv, r0(3, 0), 1, 0, ck))
+        tasks.append((spec, reqs, 'sorted', False,
+                      (f"F5:checkpoints:cuts={cuts}",
                        f"layout={int(grouped)}{int(proc)}")))
     return tasks
 
